@@ -124,11 +124,29 @@ def gen_merge_history(r, cid):
     elif fin == 1: ops += ['r0'] * (n1 + n2 + 12) + ['br0'] * (n1 + n2 + 12) + ['t', 'bt']
     return head(cid) + ' ' + ' '.join(ops)
 
+def gen_separator_history(r, cid):
+    """ascending build, drain the leftmost leaves completely (no merge possible while the right sibling is full), then
+    remove the separators whose left subtree has become empty - up to the root (pvRemoveInternal, childNode == node)"""
+    mc = CONFIGS[cid][0]
+    n = r.choice([2 * mc + 2, 2 * mc + 2, 3 * mc + 3, (mc + 1) * (mc + 2) + r.below(4), 4 * mc + 4])
+    n = min(n, 700)
+    ops = ['i%d' % (20000 + j) for j in range(n)] + ['s']
+    for _ in range(r.range(1, min(n, 3 * mc + 3))):
+        ops.append('r0')
+        if r.chance(1, 3): ops.append('s')
+        if r.chance(1, 6): ops.append('q%d' % (20000 + r.below(n)))
+    ops += ['t', 's']
+    for _ in range(r.below(4)):
+        ops += ['r%d' % r.below(3), 's']
+    return head(cid) + ' ' + ' '.join(ops + ['t'])
+
 def gen_cases(ctx, scale, modelled_only):
     r = ctx.rng
     cases = []
     for cid in sorted(CONFIGS):
         mc = CONFIGS[cid][0]
+        for _ in range((3 if mc <= 8 else 1) * scale):
+            cases.append(gen_separator_history(r, cid))
         n = (10 if mc <= 8 else 4) * scale
         for _ in range(n):
             nops = r.choice([20, 40, 80, 160]) if mc <= 8 else r.choice([60, 120])
@@ -145,15 +163,31 @@ def split_by_tu(cases):
     return groups
 
 def run_impl(ctx, harn, cases, name):
-    """run the real code: each case goes to the harness executable that holds its configuration"""
+    """run the real code: each case goes to the harness executable that holds its configuration.
+    A crash (assert, segfault on poisoned freed memory, sanitizer report) is attributed to the case being run and the
+    rest of the batch is re-run after it."""
     out = [None] * len(cases); err = ''
     for tu, idxs in split_by_tu(cases).items():
-        path = os.path.join(ctx.build, '%s.tu%d.cases' % (name, tu))
-        open(path, 'w').write('\n'.join(cases[i] for i in idxs) + '\n')
-        rc, lines, e = ctx.run_lines([harn[tu]], path)
-        for j, i in enumerate(idxs):
-            out[i] = lines[j] if j < len(lines) else '<missing: harness exit %d %s>' % (rc, e.strip()[-300:])
-        if rc != 0: err += 'harness tu%d exit %d: %s\n' % (tu, rc, e[-600:])
+        todo = list(idxs); rounds = 0
+        while todo and rounds < 40:
+            rounds += 1
+            path = os.path.join(ctx.build, '%s.tu%d.cases' % (name, tu))
+            open(path, 'w').write('\n'.join(cases[i] for i in todo) + '\n')
+            rc, lines, e = ctx.run_lines([harn[tu]], path)
+            n = min(len(lines), len(todo))
+            for j in range(n):
+                out[todo[j]] = lines[j]
+            if rc == 0 and n == len(todo):
+                todo = []
+            else:
+                if n < len(todo):
+                    out[todo[n]] = '<missing: harness crashed with exit %d: %s>' % (rc, ' '.join(e.strip().split())[-400:])
+                    err += 'harness tu%d crashed (exit %d) on case: %s\n' % (tu, rc, cases[todo[n]][:160])
+                    todo = todo[n + 1:]
+                else:
+                    err += 'harness tu%d exit %d: %s\n' % (tu, rc, e[-300:]); todo = []
+        for i in todo:
+            out[i] = '<missing: not run>'
     return out, err
 
 def first_diff(case, a, b):
@@ -188,7 +222,7 @@ def shrink(ctx, case, still_fails):
 def impl_fails(ctx, harn):
     def f(case):
         out, err = run_impl(ctx, harn, [case], 'shrink')
-        return any((t.startswith('!') and not t.startswith('!KNOWN:')) or t.startswith('<missing') for t in out[0].split(' '))
+        return any(t.startswith('!') or t.startswith('<missing') for t in out[0].split(' '))
     return f
 
 def corr_fails(ctx, harn):
@@ -219,9 +253,6 @@ def replay(ctx, rp):
     out, err = run_impl(ctx, harn, [case], 'replay')
     print('case:', case, '\nimplementation:', out[0], err)
     bad = '!' in out[0] or out[0].startswith('<missing')
-    for t in out[0].split(' '):
-        if t.startswith('!KNOWN:') and any(k['kind'] == 'known' and k['property'] == 'C02' and k['key'] == t[7:] for k in ctx.known_findings()):
-            print('KNOWN-FINDING: property=C02 ' + t[7:]); bad = any(x.startswith('!') and x != t for x in out[0].split(' '))
     if rp.get('model') and not bad:
         # a correspondence violation: re-run the model as well
         ctx.regen(GEN); ctx.prove()
@@ -288,18 +319,8 @@ def run(ctx):
     oimpl, oerr = run_impl(ctx, harn, ocases, 'oracle')
     ctx.evaluations += len(ocases)
     def viol(o):
-        return [t for t in o.split(' ') if (t.startswith('!') and not t.startswith('!KNOWN:')) or t.startswith('<missing') or '?' in t]
+        return [t for t in o.split(' ') if t.startswith('!') or t.startswith('<missing') or '?' in t]
     bad = [(c, o) for c, o in zip(ocases, oimpl) if viol(o)]
-    known = {}
-    for c, o in zip(ocases, oimpl):
-        for t in o.split(' '):
-            if t.startswith('!KNOWN:'): known.setdefault(t[7:], (c, o))
-    for k, (c, o) in sorted(known.items()):
-        ctx.violation('recorded deviation %s: equal keys are not kept in insertion order' % k,
-                      {'case': c[:3000], 'impl_output': o[:2000], 'cmd': 'echo "<case>" | build/C02/harness%d' % (int(c.split()[0]) // 8)},
-                      found_input=True, key=k)
-    for c, o in zip(ocases, oimpl):
-        if 'N' in o: ctx.nontrivial.add(c)
     ctx.stage('oracle', not bad and not oerr, (oerr + ('%d failing histories; first: %s -> %s' % (len(bad), bad[0][0][:200], viol(bad[0][1])[:3]) if bad else '')))
     for (c, o) in bad[:2]:
         small = shrink(ctx, c, impl_fails(ctx, harn))
